@@ -12,8 +12,29 @@ import itertools
 
 from harness.core import MachineryError
 from harness import par_fixtures as pf
+from harness import c09_r7_fixtures as r7
 
-MODEL_MODULES = ['SkyllhModel.Model.Par', 'SkyllhModel.Model.ParStatus']
+MODEL_MODULES = ['SkyllhModel.Model.Par', 'SkyllhModel.Model.ParStatus', 'SkyllhModel.Model.ParSetupR7']
+
+# which callables of the anchored files have an executable Lean counterpart that run(ctx) compares with the real callable
+MODEL_MAP = {
+    'skyllh/core/multiproc.py::get_ncpu': ['Par.getNcpu', 'ParSetup.getNcpuP'],
+    'skyllh/core/multiproc.py::parallelize': ['Par.arraySplit', 'Par.mkCfg', 'Par.childStep', 'Par.masterStep', 'Par.step', 'Par.terminateAll',
+                                              'ParStatus.step', 'ParSetup.setup', 'ParSetup.seededF', 'ParSetup.seededExpected', 'ParSetup.taskKwargs', 'ParSetup.dictSet',
+                                              'ParSetup.firstBadExit'],
+    'skyllh/core/multiproc.py::IsParallelizable.ncpu': ['ParSetup.setNcpuP', 'ParSetup.ncpuProperty'],
+    'skyllh/core/analysis.py::Analysis.do_trials': ['Par.assembleTrials'],
+}
+
+
+def generated(ctx):
+    """literals of skyllh/core/multiproc.py the model is instantiated at (Generated/C09.lean); the `…_for_current_source`
+    lemmas of Props/C09.lean are proof obligations on them"""
+    vals, fallbacks = r7.extract_constants()
+    for name, why in fallbacks:
+        ctx.note('C09: could not extract %s (%s); using recorded value %r' % (name, why, r7.RECORDED[name]))
+        ctx.proof['generated_fallbacks'].append(name)
+    return r7.generated_text(vals)
 
 SLOW = 0.03          # a slow process sleeps this long before its first task
 FAULT_DELAY = 0.06   # a late fault / a fault after the result has been flushed to the pipe
@@ -88,7 +109,10 @@ def make_case(ncpu, n, slow=(), fault=None, seed=None, logs=True, variant='fast'
 
 
 KILL_DELAY = 0.12     # a signal that hits the process in a later window arrives this long after the task that armed it
-KILL_HOLD = 0.35      # … while the hook plan holds the process in that window
+KILL_HOLD = 3.0       # … while the hook plan holds the process in that window (round 7: was 0.35 s — on a machine with load average
+                      # 68 the timer thread fired later than that, the child left the window alive and the run was reported as
+                      # 'returned although a worker died'; the signal ends the hold, so a long hold costs nothing)
+KILL_OTHERS_SLOW = 0.35 + 3 * SLOW   # the others are slower than the signal's delay by a wide margin
 
 
 def _fault_actions(case):
@@ -149,7 +173,8 @@ def fault_class(case):
     fa = _fault_actions(case)
     if int(case.get('rsize') or 0) >= PIPE_BUF:
         # a hard exit anywhere after rqueue.put can hit the feeder thread in the middle of the pipe write of a large result
-        if fa and all(w in ('queued', 'done') and a == 'exit' for (_, w, _, a, _, _) in fa):
+        # (round 7: a death by signal there is the same event — seen under load: SIGTERM 0.12 s after rqueue.put, 100 kB results)
+        if fa and all(w in ('queued', 'done') and a in ('exit', 'signal') for (_, w, _, a, _, _) in fa):
             return pre + 'bigres-exit-at-queued'
         pre += 'bigres-'
     if len(fa) > 1:
@@ -195,13 +220,13 @@ def model_fault_specs(case):
                 code = 1 if a == 'raise' else v
                 # exit after the sentinel; without a delay the sentinel may not have reached the pipe
                 tok = ['%d:xs:%d' % (pid, code), '%d:xq:%d:1' % (pid, code)]
-                if a == 'exit' and int(case.get('rsize') or 0) >= PIPE_BUF:
+                if a in ('exit', 'signal') and int(case.get('rsize') or 0) >= PIPE_BUF:
                     tok = tok + ['%d:xp:%d' % (pid, code)]      # … or the result itself is still being written
             else:
                 code = 1 if a == 'raise' else v
                 # without a delay the result may or may not have reached the pipe before the exit
                 tok = ['%d:xq:%d:1' % (pid, code)] if delayed else ['%d:xq:%d:1' % (pid, code), '%d:xq:%d:0' % (pid, code)]
-                if a == 'exit' and int(case.get('rsize') or 0) >= PIPE_BUF:
+                if a in ('exit', 'signal') and int(case.get('rsize') or 0) >= PIPE_BUF:
                     tok = tok + ['%d:xp:%d' % (pid, code)]      # only a part of the result has reached the pipe
             specs = [s + [t] for s in specs for t in tok]
     # the model has one fault slot per child: keep the first fault of each child
@@ -550,6 +575,360 @@ def _ncpu_impl(case):
     return imp, 'ncpuof %s %s' % (cm, lm)
 
 
+# ------------------------------------------------------------------------------------------
+# round 7: set-up of parallelize, ncpu property, exit-code loop (Model/ParSetupR7.lean)
+
+SETUP_TAGS = ['single', 'rejected', 'rssTypeError', 'tlTypeError', 'rssNone+tlNone', 'rssNone+tlNew', 'rssDrawn+tlNone', 'rssDrawn+tlNew']
+
+
+def setup_line(case, consts):
+    k = max(case['ncpu'] - 1, 0)
+    draws = r7.reference_stream(case['seed'], consts['randintLow'], consts['randintHigh'], k) if case['rss'] == 'ok' and k else []
+    return 'setup %d %s %s %d %d %s' % (case['ncpu'], case['rss'], case['tl'], case['n'], case['seed'], ','.join(map(str, draws)) or '-')
+
+
+def _kv(ans):
+    return dict(t.split('=', 1) for t in ans.split(' ')[1:] if '=' in t)
+
+
+def setup_property(case, out):
+    """implementation-only: legal arguments => a complete ordered result; wrong-typed rss/tl with more than one process or
+    an illegal worker count => an exception; every seed a service reports is a legal seed"""
+    what = 'parallelize(probe, %d tasks, ncpu=%d, rss=%s (seed %r), tl=%s)' % (case['n'], case['ncpu'], case['rss'], case['seed'], case['tl'])
+    if out['out'] == 'timeout':
+        return 'hang', what + ' did not end'
+    legal = case['ncpu'] >= 1 and (case['ncpu'] == 1 or 'wrong' not in (case['rss'], case['tl']))
+    if out['out'] == 'error':
+        return ('spurious-error', what + ' raised %s: %s' % (out['etype'], out['msg'])) if legal else None
+    if case['ncpu'] < 1:
+        return 'returns-despite-illegal-ncpu', what + ' returned %d results' % len(out['res'])
+    if [r[0] for r in out['res']] != list(range(case['n'])):
+        return 'wrong-result', what + ' returned the tasks %r' % [r[0] for r in out['res']]
+    for r in out['res']:
+        if r[3] is not None and not 0 <= r[3] < 2 ** 32:
+            return 'illegal-seed', what + ': task %d ran with a service of seed %r' % (r[0], r[3])
+    return None
+
+
+def seeded_tasks_compare(case, out, kv, consts):
+    """output position i of the real call vs entry i of the model's `seededExpected` (seed of the service of the process that
+    ran it / numbers the service had yielded before its first task / local task number / input)"""
+    import numpy as np
+    lo, hi = consts['randintLow'], consts['randintHigh']
+    toks = kv['tasks'].split(',') if kv.get('tasks', '-') != '-' else []
+    if len(toks) != len(out['res']):
+        return 'model: %d results, implementation %d' % (len(toks), len(out['res']))
+    streams = {}
+    for i, (tok, r) in enumerate(zip(toks, out['res'])):
+        sd, skip, t, x = tok.split('/')
+        sd, skip, t, x = (None if sd == 'none' else int(sd)), int(skip), int(t), int(x)
+        if r[0] != x or r[3] != sd:
+            return 'output %d: task %r run with a service of seed %r; model: task %d, seed %r' % (i, r[0], r[3], x, sd)
+        if sd is not None:
+            key = (sd, skip)
+            if key not in streams:
+                st = np.random.RandomState(sd)
+                for _ in range(skip):
+                    st.randint(lo, hi)
+                streams[key] = (st, [])
+            st, drawn = streams[key]
+            while len(drawn) <= t:
+                drawn.append(int(st.randint(0, 2 ** 32)))
+            if r[4] != drawn[t]:
+                return 'output %d: task %d drew %r; model: number %d (after %d set-up draws) of the service of seed %d = %d' % (i, x, r[4], t, skip, sd, drawn[t])
+    return None
+
+
+def setup_compare(case, out, ans, consts):
+    """model answer vs real run; None or text"""
+    head = ans.split(' ')[0]
+    if out['out'] == 'timeout':
+        return None                                    # reported by the property oracle
+    if head in ('rejected', 'TypeError'):
+        if out['out'] != 'error':
+            return 'model %s, implementation returned' % head
+        if head == 'TypeError' and out['etype'] != 'TypeError':
+            return 'model TypeError, implementation raised %s' % out['etype']
+        return None
+    if out['out'] != 'done':
+        return 'model %s, implementation raised %s' % (head, out.get('etype'))
+    res, n, me = out['res'], case['n'], out['mypid']
+    kv = _kv(ans)
+    if len(res) != n:
+        return 'model: %d results, implementation %d' % (n, len(res))
+    lo, hi = consts['randintLow'], consts['randintHigh']
+    if head == 'single':
+        for r in res:
+            if r[1] != me or r[2] != kv['rss'] or r[5] != kv['tl']:
+                return 'single path: task %d saw pid/rss/tl %r, model rss=%s tl=%s in the calling process' % (r[0], r[1:], kv['rss'], kv['tl'])
+        d = seeded_tasks_compare(case, out, kv, consts)
+        if d:
+            return d
+        if case['rss'] == 'ok':
+            ref = r7.reference_stream(case['seed'], 0, 2 ** 32, n + 1)
+            if [r[3] for r in res] != [case['seed']] * n or [r[4] for r in res] != ref[:n] or out['after'] != ref[n]:
+                return 'single path: seeds/draws %r then %r, expected seed %d draws %r' % ([r[3:5] for r in res], out['after'], case['seed'], ref)
+        return None
+    # several processes
+    pids = [int(x) for x in kv['pids'].split(',')] if kv['pids'] != '-' else []
+    seeds = [None if x == 'none' else int(x) for x in kv['seeds'].split(',')]
+    tls = [x == '1' for x in kv['tl'].split(',')]
+    obs = {}
+    for r in res:
+        obs.setdefault(r[1], []).append(r)
+    same_chunks = [len(list(g)) for _, g in itertools.groupby(r[1] for r in res)] == [len(list(g)) for _, g in itertools.groupby(pids)] \
+        and all(r[1] == me for r, p in zip(res, pids) if p == 0) and all(r[1] != me for r, p in zip(res, pids) if p != 0)
+    if same_chunks:
+        d = seeded_tasks_compare(case, out, kv, consts)
+        if d:
+            return d
+    if not same_chunks:
+        # the distribution of the tasks is not part of the property: only check that every service seed is one of the model's
+        bad = [r for r in res if r[3] is not None and r[3] not in set(seeds) | {case['seed']}]
+        return ('task %d ran with seed %r, not a seed of the model %r' % (bad[0][0], bad[0][3], seeds)) if bad else 'chunks-differ'
+    k = int(kv['draws'])
+    mref = r7.reference_stream(case['seed'], lo, hi, k) if case['rss'] == 'ok' else []
+    n0 = pids.count(0)
+    per = {}
+    for r, p in zip(res, pids):
+        per.setdefault(p, []).append(r)
+    for p, rs in per.items():
+        if p == 0:
+            want_rss, want_tl, want_seed = case['rss'], case['tl'], case['seed'] if case['rss'] == 'ok' else None
+        else:
+            want_seed = seeds[p - 1]
+            want_rss, want_tl = ('none' if want_seed is None else 'ok'), ('ok' if tls[p - 1] else 'none')
+        for r in rs:
+            if (r[2], r[3], r[5]) != (want_rss, want_seed, want_tl):
+                return 'task %d (pid %d) saw rss %s seed %r tl %s; model: rss %s seed %r tl %s' % (r[0], p, r[2], r[3], r[5], want_rss, want_seed, want_tl)
+        if want_seed is not None:
+            import numpy as np
+            st = np.random.RandomState(want_seed)
+            skip = k if p == 0 else 0
+            for _ in range(skip):
+                st.randint(lo, hi)
+            ref = [int(st.randint(0, 2 ** 32)) for _ in range(len(rs))]
+            if [r[4] for r in rs] != ref:
+                return 'pid %d: draws %r, expected %r (service of seed %d after %d draws)' % (p, [r[4] for r in rs], ref, want_seed, skip)
+            if p == 0 and out['after'] != int(st.randint(0, 2 ** 32)):
+                return 'the caller\'s service yields %r after the call; expected the number after %d set-up draws and %d task draws' % (out['after'], skip, len(rs))
+    if case['rss'] == 'ok' and mref != [s for s in seeds]:
+        return 'model seeds %r differ from the reference stream %r' % (seeds, mref)
+    return None
+
+
+def o_setup(ctx, case):
+    """replay of one set-up case: property oracle, determinism of two identical calls, then model correspondence"""
+    consts, _ = r7.extract_constants()
+    outs = r7.run_setup_cases([case, dict(case)])
+    for o in outs:
+        bad = setup_property(case, o)
+        if bad:
+            return bad[1]
+    if outs[0]['out'] == 'done' and outs[1]['out'] == 'done':
+        a, b = [[r[0]] + r[2:] for r in outs[0]['res']], [[r[0]] + r[2:] for r in outs[1]['res']]
+        if a != b or outs[0]['after'] != outs[1]['after']:
+            return 'two identical calls differ: %r / %r' % (a, b)
+    ans = ctx.driver('C09', [setup_line(case, consts)])[0]
+    d = setup_compare(case, outs[0], ans, consts)
+    return None if d in (None, 'chunks-differ') else d
+
+
+def o_ncpuprop(ctx, case):
+    consts, _ = r7.extract_constants()
+    cv, cm = _ncpu_value(case['cfg'])
+    lv, lm = _ncpu_value(case['local'])
+    imp = r7.ncpu_property_impl(cv, lv)
+    mod = ctx.driver('C09', ['ncpuprop %d %d %d %s %s' % (consts['defaultNcpu'], consts['minNcpuGet'], consts['minNcpuSet'], cm, lm)])[0]
+    if imp.startswith('ok:') and int(imp[3:]) < 1:
+        return 'obj.ncpu = %s with cfg ncpu %s: the property returns %s' % (case['local'], case['cfg'], imp)
+    return None if imp == mod else 'obj.ncpu = %s; obj.ncpu with cfg ncpu %s: implementation %s, model %s' % (case['local'], case['cfg'], imp, mod)
+
+
+def kwargs_compare(case, out, mod):
+    what = 'parallelize(probe_kw, %d tasks each with the keyword arguments %r, ncpu=%d, rss=%s, tl=%s)' % (case['n'], case['own'], case['ncpu'], case['rss'], case['tl'])
+    if out['out'] == 'timeout':
+        return 'hang', what + ' did not end'
+    if out['out'] == 'error':
+        return 'spurious-error', what + ' raised %s: %s' % (out['etype'], out['msg'])
+    if [r[0] for r in out['res']] != list(range(case['n'])):
+        return 'wrong-result', what + ' returned the tasks %r' % [r[0] for r in out['res']]
+    want = [] if mod == '-' else [t.split('=') for t in mod.split(',')]
+    for r in out['res']:
+        if r[2] != want:
+            return 'corr', what + ': task %d was called with %r, model %r' % (r[0], r[2], want)
+    return None
+
+
+def o_kwargs(ctx, case):
+    out = r7.run_setup_cases([case])[0]
+    mod = ctx.driver('C09', ['kwargs %s %d %d' % (','.join(case['own']) or '-', case['rss'] == 'ok', case['tl'] == 'ok')])[0]
+    bad = kwargs_compare(case, out, mod)
+    return bad[1] if bad else None
+
+
+def exit_case(codes):
+    """children 1..len(codes) end 60 ms after their log sentinel with the given exit code (0: they just return)"""
+    ncpu = len(codes) + 1
+    plan = [entry('done', pid, None, ['sleep', FAULT_DELAY], ['exit', c]) for pid, c in enumerate(codes, start=1) if c != 0]
+    return {'ncpu': ncpu, 'n': 2 * ncpu, 'rss': 'none', 'tl': 'none', 'seed': 1, 'plan': plan, 'codes': list(codes)}
+
+
+def o_exitcodes(ctx, case):
+    out = r7.run_setup_cases([case])[0]
+    mod = ctx.driver('C09', ['badexit ' + (','.join(map(str, case['codes'])) or '-')])[0]
+    return exit_compare(case, out, mod)
+
+
+def exit_compare(case, out, mod):
+    what = 'ncpu=%d, %d tasks, children end after their log sentinel with exit codes %r' % (case['ncpu'], case['n'], case['codes'])
+    if out['out'] == 'timeout':
+        return what + ': did not end'
+    if any(case['codes']) and out['out'] == 'done':
+        return what + ': returned %d results' % len(out['res'])
+    if not any(case['codes']) and out['out'] == 'error':
+        return what + ': raised %s: %s' % (out['etype'], out['msg'])
+    if (mod == 'none') != (out['out'] == 'done'):
+        return what + ': implementation %s, model firstBadExit %s' % (out['out'], mod)
+    return None
+
+
+def r7_prepare(ctx):
+    """generate and run the round-7 cases; returns the state for r7_compare and the driver lines"""
+    rng = ctx.rng
+    consts, _ = r7.extract_constants()
+    cases = []
+    kinds = ['none', 'ok', 'wrong']
+    for ncpu in range(1, ctx.n(4, 8) + 1):
+        for rk in kinds:
+            for tk in kinds:
+                n = rng.choice([0, 1, ncpu, 2 * ncpu - 1, ncpu + rng.randrange(1, 6)])
+                if rk == 'ok' or tk == 'ok':
+                    n = max(n, ncpu)      # every process owns a task, so that what it was handed is observed
+                seed = boundary_seed(len(cases), rng.randrange(2, 2 ** 32 - 1))
+                c = {'ncpu': ncpu, 'n': n, 'rss': rk, 'tl': tk, 'seed': seed, 'ncpu_form': rng.choice(['int', 'bool']),
+                     'container': rng.choice(['list', 'tuple'])}
+                cases.append(c)
+                if rk == 'ok':        # the same call again (other container form): must be identical
+                    cases.append(dict(c, container='tuple' if c['container'] == 'list' else 'list', twin=len(cases) - 1))
+    for bad in (0, -1, -5):
+        cases.append({'ncpu': bad, 'n': 3, 'rss': rng.choice(kinds), 'tl': rng.choice(kinds), 'seed': 5})
+    # the seed of a child does not depend on the number of processes
+    s0 = rng.randrange(2 ** 32)
+    fam = [{'ncpu': k, 'n': k, 'rss': 'ok', 'tl': 'none', 'seed': s0, 'family': True} for k in range(2, ctx.n(5, 8) + 1)]
+    cases += fam
+    # keyword arguments a task is called with: caller's own dictionary (with or without the names rss / tl) x service given or not
+    kw_cases = []
+    owns = [[], ['a'], ['rss'], ['a', 'rss', 'b'], ['tl'], ['tl', 'a'], ['rss', 'tl'], ['b', 'tl', 'rss', 'a']]
+    for own in owns:
+        for rk in ('none', 'ok'):
+            for tk in ('none', 'ok'):
+                ncpu = rng.choice([1, 2, 3])
+                kw_cases.append({'ncpu': ncpu, 'n': ncpu + rng.randrange(0, 3), 'rss': rk, 'tl': tk, 'seed': 11, 'own': own,
+                                 'shared': rng.random() < 0.5, 'container': rng.choice(['list', 'tuple'])})
+    ex_cases = []
+    if DONE_HOOK:
+        for codes in [(0,), (3,), (0, 0), (0, 3), (3, 0), (7, 3), (0, 0, 7)] + ([(3, 7, 0), (0, 7, 0), (0, 0, 0)] if ctx.thorough else []):
+            ex_cases.append(exit_case(codes))
+    outs = r7.run_setup_cases(cases + ex_cases + kw_cases, timeout=ctx.n(40.0, 90.0))
+    kw_outs = outs[len(cases) + len(ex_cases):]
+    outs = outs[:len(cases) + len(ex_cases)]
+    kw_lines = ['kwargs %s %d %d' % (','.join(c['own']) or '-', c['rss'] == 'ok', c['tl'] == 'ok') for c in kw_cases]
+    lines = [setup_line(c, consts) for c in cases]
+    ex_lines = ['badexit ' + ','.join(map(str, c['codes'])) for c in ex_cases] + ['badexit -', 'badexit 0,-9', 'badexit -15,0,1']
+    toks = ['none', 'int:1', 'int:2', 'int:8', 'int:0', 'int:-3', 'bool:1', 'bool:0', 'float', 'npint', 'str']
+    pp = [{'cfg': a, 'local': b} for a in toks for b in toks]
+    pl, pi, gl = [], [], []
+    for c in pp:
+        cv, cm = _ncpu_value(c['cfg'])
+        lv, lm = _ncpu_value(c['local'])
+        pi.append(r7.ncpu_property_impl(cv, lv))
+        pl.append('ncpuprop %d %d %d %s %s' % (consts['defaultNcpu'], consts['minNcpuGet'], consts['minNcpuSet'], cm, lm))
+        gl.append('ncpuofp %d %d %s %s' % (consts['defaultNcpu'], consts['minNcpuGet'], cm, lm))
+    st = dict(consts=consts, cases=cases, outs=outs[:len(cases)], lines=lines, ex_cases=ex_cases, ex_outs=outs[len(cases):], ex_lines=ex_lines,
+              pp=pp, pl=pl, pi=pi, gl=gl, fam=fam, kw_cases=kw_cases, kw_outs=kw_outs, kw_lines=kw_lines)
+    return st, lines + ex_lines + pl + gl + kw_lines
+
+
+def r7_compare(ctx, st, drv):
+    consts = st['consts']
+    ctx.extra['source_literals'] = consts
+    answers = drv(st['lines'])
+    by = {}
+    for i, (c, o, a) in enumerate(zip(st['cases'], st['outs'], answers)):
+        if o['out'] == 'skipped':
+            continue
+        ctx.case(key=('setup', c['ncpu'], c['n'], c['rss'], c['tl'], c['seed'], c.get('container'), c.get('ncpu_form')),
+                 desc={'setup': c, 'model': a} if i in (7, 20) else None)
+        tag = a.split('tag:')[1]
+        ctx.count('setup-branch:' + tag)
+        ctx.count('corr:setup')
+        by[i] = o
+        bad = setup_property(c, o)
+        if bad:
+            ctx.violation('setup', c, bad[1], signature='C09/parallelize/%s/setup-%s' % (bad[0], tag), kind='schedule')
+            continue
+        if 'twin' in c and o['out'] == 'done' and st['outs'][c['twin']]['out'] == 'done':
+            o2 = st['outs'][c['twin']]
+            if [[r[0]] + r[2:] for r in o['res']] != [[r[0]] + r[2:] for r in o2['res']] or o['after'] != o2['after']:
+                ctx.violation('setup', c, 'two identical calls (seed %d, ncpu %d, %d tasks) differ: %r / %r' % (c['seed'], c['ncpu'], c['n'], o['res'], o2['res']),
+                              signature='C09/parallelize/nondeterministic/setup-' + tag, kind='schedule')
+                continue
+        d = setup_compare(c, o, a, consts)
+        if d == 'chunks-differ':
+            ctx.count('diag:setup-chunks-differ-from-array_split')
+        elif d:
+            ctx.violation('setup', c, 'set-up of parallelize: ' + d, kind='correspondence', relation='exact (argument kinds, seeds, draws per task)',
+                          impl_output=str(o)[:400], model_output=a, signature='C09/corr/setup/' + tag, no_failing_input=True)
+    # the seed of child pid is the same for every number of processes (c09_setup_seed_independent_of_ncpu), observed on the real runs
+    seen = {}
+    for c, o in zip(st['cases'], st['outs']):
+        if c.get('family') and o['out'] == 'done':
+            groups_ = [k for k, _ in itertools.groupby((r[1], r[3]) for r in o['res'])]
+            for j, (_, sd) in enumerate(groups_[1:], start=1):
+                ctx.count('corr:setup-seed-of-pid-independent-of-ncpu')
+                if seen.setdefault(j, sd) != sd:
+                    ctx.violation('setup', c, 'process %d of %d has the service seed %r, with fewer processes it had %r (caller seed %d)' % (j, c['ncpu'], sd, seen[j], c['seed']),
+                                  kind='correspondence', relation='exact', impl_output=sd, model_output=seen[j],
+                                  signature='C09/corr/setup/seed-depends-on-ncpu', no_failing_input=True)
+    ctx.extra['counts_r7'] = {'zero_hit_setup_branches': [t for t in SETUP_TAGS if not ctx.counters.get('setup-branch:' + t)]}
+    # exit-code loop
+    ex_ans = drv(st['ex_lines'])
+    for c, o, m in zip(st['ex_cases'], st['ex_outs'], ex_ans):
+        if o['out'] == 'skipped':
+            continue
+        ctx.case(key=('exitcodes', tuple(c['codes'])))
+        ctx.count('corr:exit-code-loop:' + ('none' if m == 'none' else 'bad'))
+        bad = exit_compare(c, o, m)
+        if bad:
+            ctx.violation('exitcodes', c, bad, signature='C09/parallelize/%s/exit-codes-after-sentinel' % (
+                'returns-despite-failure' if o['out'] == 'done' else 'hang' if o['out'] == 'timeout' else 'spurious-error'), kind='schedule', model_output=m)
+        elif m != 'none' and o['out'] == 'error' and ('code was %s' % m.split(':')[1]) in o.get('msg', ''):
+            ctx.count('diag:exit-code-message-names-first-bad-child')
+    if ex_ans[-3:] != ['none', '1:-9', '0:-15']:
+        raise MachineryError('firstBadExit model: %r' % ex_ans[-3:])
+    # keyword arguments of a task
+    for c, o, m in zip(st['kw_cases'], st['kw_outs'], drv(st['kw_lines'])):
+        if o['out'] == 'skipped':
+            continue
+        ctx.case(key=('kwargs', tuple(c['own']), c['rss'], c['tl'], c['ncpu'], c['n'], c['shared']))
+        ctx.count('corr:task-kwargs:rss=%s,tl=%s,own-has-rss=%d,own-has-tl=%d' % (c['rss'], c['tl'], 'rss' in c['own'], 'tl' in c['own']))
+        bad = kwargs_compare(c, o, m)
+        if bad:
+            ctx.violation('kwargs', c, bad[1], signature='C09/parallelize/%s/task-kwargs' % bad[0], kind='correspondence' if bad[0] == 'corr' else 'schedule',
+                          **(dict(relation='exact (names in order, whose value)', impl_output=str(o)[:300], model_output=m, no_failing_input=True) if bad[0] == 'corr' else {}))
+        elif o.get('mutated'):
+            ctx.count('diag:caller-kwargs-altered')
+    # ncpu property and the parametrised get_ncpu
+    for c, imp, mod in zip(st['pp'], st['pi'], drv(st['pl'])):
+        ctx.case(key=('ncpuprop', c['cfg'], c['local']))
+        ctx.count('corr:ncpu-property:' + (mod if not mod.startswith('ok') else 'ok'))
+        if imp != mod:
+            ctx.violation('ncpuprop', c, 'obj.ncpu = %s; obj.ncpu with cfg ncpu %s: implementation %s, model %s' % (c['local'], c['cfg'], imp, mod),
+                          kind='correspondence', relation='exact', impl_output=imp, model_output=mod, signature='C09/ncpu-property/' + mod.split(':')[-1])
+    return st['gl']
+
+
 def _fault_variants(ncpu, n, fault):
     """completion orders around a fault: everybody fast; the fault happens late (the others finish first);
     the others (and the master) are slow (the fault happens first)"""
@@ -557,7 +936,7 @@ def _fault_variants(ncpu, n, fault):
     if fault['kind'] == 'signal':
         if fault['point'] != 'task':
             others = [p for p in range(ncpu) if p != fault['pid']]
-            yield make_case(ncpu, n, slow=others, fault=fault, variant='others-slow', slow_s=KILL_HOLD + 3 * SLOW)
+            yield make_case(ncpu, n, slow=others, fault=fault, variant='others-slow', slow_s=KILL_OTHERS_SLOW)
         return
     yield make_case(ncpu, n, fault=dict(fault, late=True), variant='late-fault')
     others = [p for p in range(ncpu) if p != fault['pid']]
@@ -594,6 +973,7 @@ def run(ctx):
                          'master keeps reading them until the result / the sentinel of every child has arrived; the status queue is '
                          'modelled separately (Model/ParStatus.lean, capacity as a parameter) and exercised by the large and interactive runs',
                          'guarded hook in skyllh/core/multiproc.py (_verif_point): add-only, inactive without ICECUBE_SKYLLH_VERIF=1']
+    ctx.assumptions += ['numpy contract: RandomState.randint(lo, hi) yields lo <= x < hi and RandomState accepts the seeds 0 .. 2**32-1 (c09_setup_seeds_legal)']
     ctx.assumptions += ['start method fork (the worker is a closure); faults inside the master process itself are not part of the model',
                         'a child that exits normally has flushed its queues (multiprocessing joins the feeder threads at exit)',
                         'a child that dies after it has delivered its result and its log sentinel (exit code ignored at join) is not a failure: the call returns the complete result',
@@ -850,7 +1230,10 @@ def run(ctx):
     # ---- chunking: model vs numpy on the object array the code builds
     nmax, cmax = ctx.n(24, 60), ctx.n(9, 16)
     pairs = [(n, c) for n in range(nmax + 1) for c in range(1, cmax + 1)]
-    batch = list(dict.fromkeys(['split %d %d' % p for p in pairs] + mo_lines[0] + lead_lines + sw_lines + [r for _, r in impl_req] + tl_lines + st_lines))
+    _t7 = _t.time()
+    r7_state, r7_lines = r7_prepare(ctx)
+    ctx.extra['phase_s']['round7_runs'] = round(_t.time() - _t7, 1)
+    batch = list(dict.fromkeys(['split %d %d' % p for p in pairs] + mo_lines[0] + lead_lines + sw_lines + [r for _, r in impl_req] + tl_lines + st_lines + r7_lines))
     cache = dict(zip(batch, ctx.driver('C09', batch)))
     drv = lambda ls: [cache[l] for l in ls]      # noqa
     mo = model_outcomes(ctx, mo_lines, lim, drv=drv)
@@ -879,8 +1262,15 @@ def run(ctx):
     ctx.extra['swapped_order_model_outcomes_fault_free'] = sw[0]
     if 'error' not in sw[0].split(';') or 'error' in sw[1].split(';'):
         raise MachineryError('Swapped / current model no longer differ on the fault-free instance: %r' % sw)
+    # ---- round 7: set-up of parallelize, exit-code loop, ncpu property; get_ncpu with the literals of the source as parameters
+    ans_p = drv(r7_compare(ctx, r7_state, drv))
     # ---- get_ncpu: model vs implementation, every pair of value kinds
     ans_n = drv([r for _, r in impl_req])
+    for c, (imp, _), mod in zip(pairs_n, impl_req, ans_p):
+        ctx.count('corr:get_ncpu-parametrised')
+        if imp != mod:
+            ctx.violation('ncpu', c, 'get_ncpu(cfg ncpu=%s, local_ncpu=%s): implementation %s, model at the literals of the source %s' % (c['cfg'], c['local'], imp, mod),
+                          kind='correspondence', relation='exact', impl_output=imp, model_output=mod, signature='C09/get_ncpu-p/' + mod.split(':')[0])
     for c, (imp, _), mod in zip(pairs_n, impl_req, ans_n):
         ctx.case(key=('ncpu', c['cfg'], c['local']))
         ctx.count('corr:get_ncpu:' + (mod if not mod.startswith('ok') else 'ok'))
@@ -969,6 +1359,10 @@ def run(ctx):
 
 
 ORACLES['ncpu'] = o_ncpu
+ORACLES['setup'] = o_setup
+ORACLES['ncpuprop'] = o_ncpuprop
+ORACLES['exitcodes'] = o_exitcodes
+ORACLES['kwargs'] = o_kwargs
 
 MANIFEST = dict(
     text=('Lean theorems on a transition-system model of parallelize (children, shared result queue, per-child log queues, the '
@@ -981,7 +1375,12 @@ MANIFEST = dict(
           'newly built list returns; large fault-free runs (20000+ tasks) and interactive-session runs end inside the watchdog; '
           'status-queue model: batch mode never blocks on it, with the queue emptied at join the worker always exits. '
           'Bounded work: at most pot(init) state-changing steps in any run. Further oracles: results larger than the pipe buffer, two faults, '
-          'fault x interactive / do_trials, no child process left after return or raise, no accidental exception classes.'),
+          'fault x interactive / do_trials, no child process left after return or raise, no accidental exception classes. '
+          'Round 7: the set-up of parallelize (single-process path, type checks, one seed per child drawn from the caller service, one TimeLord per child), '
+          'the keyword arguments a task is called with, the exit-code loop after the joins, get_ncpu and the IsParallelizable.ncpu property are Lean '
+          'definitions instantiated at literals regenerated from the source (Generated/C09.lean, _for_current_source obligations) and compared with the real '
+          'calls task by task (seed, draw, argument kinds); determinism for a given seed and worker count is proved across fault plans and schedules '
+          '(c09_seeded_deterministic).'),
     note=('OPEN: a child dying in the middle of writing a result larger than the pipe buffer blocks the master in recv (counterexample theorem + known finding); '
           'Real scheduling, queue feeder threads, OS timing and "bounded time" are outside the theorems (watchdog observation); '
           'faults inside the master process are not modelled; the gather loop of the pinned commit is kept as Orig with machine-checked '
